@@ -62,18 +62,8 @@ func (o visualizeErrorOption) applyVisualizeOption(opt *visualizeOptions) {
 }
 
 func updateGraph(dg *dot.Graph, err error) error {
-	var errs []errVisualizer
 	// Unwrap error to find the root cause.
-	for {
-		if ev, ok := err.(errVisualizer); ok {
-			errs = append(errs, ev)
-		}
-		e := errors.Unwrap(err)
-		if e == nil {
-			break
-		}
-		err = e
-	}
+	errs := errVisualizers(err)
 
 	// If there are no errVisualizers included, we do not modify the graph.
 	if len(errs) == 0 {
@@ -171,18 +161,31 @@ func visualizeCtor(w io.Writer, index int, c *dot.Ctor) {
 
 // CanVisualizeError returns true if the error is an errVisualizer.
 func CanVisualizeError(err error) bool {
-	for {
-		if _, ok := err.(errVisualizer); ok {
-			return true
-		}
-		e := errors.Unwrap(err)
-		if e == nil {
+	return len(errVisualizers(err)) > 0
+}
+
+// errVisualizers collects the errVisualizers in the chain of err, outermost
+// first. Anything the caller wrapped around the dig error is looked through,
+// but once inside dig's own chain the walk stops at the first error that is
+// not a dig.Error: that error was returned by user code, and whatever it
+// wraps (for example a dig error from another container) says nothing about
+// this container's graph.
+func errVisualizers(err error) []errVisualizer {
+	var errs []errVisualizer
+	inDigChain := false
+	for err != nil {
+		_, isDigErr := err.(Error)       //nolint:errorlint // inspecting this link only
+		ev, isVis := err.(errVisualizer) //nolint:errorlint // see above
+		if inDigChain && !isDigErr && !isVis {
 			break
 		}
-		err = e
+		inDigChain = inDigChain || isDigErr || isVis
+		if isVis {
+			errs = append(errs, ev)
+		}
+		err = errors.Unwrap(err)
 	}
-
-	return false
+	return errs
 }
 
 func (c *Container) createGraph() *dot.Graph {
